@@ -71,6 +71,10 @@ def cases(tier, seed):
                         if dg == "eigvec-sparse" and vt == "sympy":
                             continue
                         out.append(dict(kind="format", base=b, k=k, fmt=fmt, vtype=vt, desig=dg, seed=seed))
+        # non-positive real terms stored sparsely with explicitly stored zeros (e.g. hoppings -t after setdiag(0))
+        for fmt in ("nested-blocks", "list", "dict-tuples"):
+            for vt in ("csr", "coo", "csc"):
+                out.append(dict(kind="format", base=b, k=1, fmt=fmt, vtype=vt, desig="indices", seed=seed, negstored=True))
         # Hamiltonians in which some parameter has no linear term (x**2 only; y**2 and x*y but no y)
         for k_, sup_ in ((1, [[2]]), (1, [[2], [3]]), (2, [[1, 0], [0, 2]]), (2, [[1, 0], [1, 1], [0, 2]]), (2, [[2, 0], [1, 1]])):
             for fmt in ("dict-monomials", "dict-tuples", "sympy-symbols", "scalar-series"):
@@ -288,6 +292,10 @@ def run_format(case):
     total = 3 if k == 1 else 2
     tiny = 2.0**-30 if case.get("tiny") else None
     cfg, values = base_values(case["base"], k, case["seed"], tiny, case.get("sup"))
+    if case.get("negstored"):
+        values = {o: -np.abs(np.array(m).real).astype(complex) for o, m in values.items()}
+        for m in values.values():
+            np.fill_diagonal(m, 0)
     fmt, vt, dg = case["fmt"], case["vtype"], case["desig"]
     herm = cfg["hermitian"]
     N = sum(cfg["sizes"])
@@ -305,6 +313,12 @@ def run_format(case):
         can = canonical(cfg, values, total)
     h0 = np.diag(np.array(BASES[case["base"]]["E"], dtype=float))
     cv = lambda m: conv_value(m, vt)  # noqa: E731
+    if case.get("negstored"):
+        def cv(m):  # noqa: F811
+            a = np.array(m, dtype=complex).real
+            r, c = np.indices(a.shape)
+            coo = sparse.coo_array((a.ravel(), (r.ravel(), c.ravel())), shape=a.shape)  # every entry stored, zeros included
+            return coo if vt == "coo" else (coo.tocsr() if vt == "csr" else coo.tocsc())
     kwargs = dict(hermitian=herm)
     if case.get("frac"):
         # energies with digits below the (loosened) tolerance; reference = sparse dict input, which is used as given
